@@ -21,8 +21,8 @@ def check(tier, replay_path=None):
         assumptions=[
             'elif / else clauses are counted for the one-subtype rule only (their recorded position is that of the condition, which the '
             'property does not constrain)',
-            'instance variables are typed with the generic instance-reference types (the synthesised models declare no per-class '
-            'instance-reference data types)',
+            'the synthesised models declare one instance-reference and one instance-set-reference data type per class; instance '
+            'values must be typed with the type of their class',
             'the minimal synthesised model has constraint violations of its own (no system / diagram rows); prebuilding must not add any',
             'navigation step chains (Next_Link_ID) are not compared',
         ])
